@@ -25,6 +25,7 @@ class Harness:
         doc: str = "",
         setup: Optional[Callable[[], None]] = None,
         min_ok_paths: int = 1,
+        batch: int = 1,
     ):
         self.hid = hid
         self.fn = fn
@@ -38,6 +39,7 @@ class Harness:
         self.doc = doc or (fn.__doc__ or "").strip()
         self.setup = setup
         self.min_ok_paths = min_ok_paths
+        self.batch = batch
 
 
 # counters a harness may bump on the paths that matter (vacuity guard, DESIGN 1)
@@ -46,3 +48,17 @@ COUNTERS: Dict[str, int] = {}
 
 def hit(name: str) -> None:
     COUNTERS[name] = COUNTERS.get(name, 0) + 1
+
+
+def concrete():
+    """Context in which code runs untraced (fast, concrete): used for building fixed
+    fixtures inside a path.  A no-op in the plain replay interpreter."""
+    import os
+
+    if os.environ.get("VF_PLAIN") == "1":
+        import contextlib
+
+        return contextlib.nullcontext()
+    from crosshair.tracers import NoTracing
+
+    return NoTracing()
